@@ -146,6 +146,9 @@ Fixpoint move_chunks (fuel : nat) (q : queue) (pos n len : nat) : res queue :=
     move_chunks fuel q' (pos + part) n (len - part)
   end.
 
+Definition dst_consumed (st : dstate) : dstate :=
+  match dmsg st with Some _ => mkd (dcode st) (dpos8 st) (dcurr st) (dpos st) (dlen st) None | None => st end.
+
 (* crop what was consumed and report *)
 Definition recv_deliver (d : dqueue) : res (rres * dqueue) :=
   do d' <- dqueue_shift d;
@@ -175,7 +178,8 @@ Definition recv_recover (v : variant) (d1 : dqueue) (len0 : nat) : res (rres * d
 (* mpt_queue_recv (with decoder) *)
 Definition dqueue_recv (v : variant) (d : dqueue) : res (rres * dqueue) :=
   let q := dq_q d in
-  if qlen q =? 0 then Ok (RErr MissingData, d) else
+  (* nothing in the queue: a delivered (necessarily empty) message counts as consumed *)
+  if qlen q =? 0 then Ok (RErr MissingData, mkdq q (dst_consumed (dq_st d))) else
   do '(r, d1) <- decode_ring v d;
   match r with
   | DMsg | DMore => recv_deliver d1
